@@ -12,6 +12,7 @@
 (* Dev: "error_pops_one" - on ErrorResponse only the oldest outstanding      *)
 (* registration is dropped (as built), although the server skips all the     *)
 (* remaining messages of the batch.                                          *)
+(* Dev: "dealloc_keeps_belief" - see SqlPrepare.                             *)
 (***************************************************************************)
 EXTENDS Integers, Sequences, FiniteSets, TLC
 CONSTANTS Clients, Conns, Names, Stmts, BAD, NONE, MaxBatches, MaxLen, Dev
@@ -113,7 +114,18 @@ RunBatch(c, s, batch) ==
              /\ bel' = [bel EXCEPT ![s] = rv.bel] /\ reg' = [reg EXCEPT ![s] = rv.reg]
              /\ truth' = [truth EXCEPT ![s] = be.truth]
              /\ viol' = viol \cup bad
-Next == \E c \in Clients, s \in Conns, b \in Batches : RunBatch(c, s, b)
+\* A client runs PREPARE through the simple protocol on s.  When the connection is given back the pooler cleans it with
+\* DEALLOCATE ALL (checkin_cleanup, needs_cleanup_prepare), which drops every statement of the session - the pooler's own
+\* PGCAT_n included; its belief about the connection is emptied with them.
+\* Dev "dealloc_keeps_belief": the belief survives the DEALLOCATE ALL.
+SqlPrepare(c, s) ==
+  /\ nb < MaxBatches /\ nb' = nb + 1
+  /\ truth' = [truth EXCEPT ![s] = {}]
+  /\ bel' = IF "dealloc_keeps_belief" \in Dev THEN bel ELSE [bel EXCEPT ![s] = {}]
+  /\ reg' = [reg EXCEPT ![s] = <<>>]
+  /\ UNCHANGED <<dref, cmap, viol>>
+Next == \/ \E c \in Clients, s \in Conns, b \in Batches : RunBatch(c, s, b)
+        \/ \E c \in Clients, s \in Conns : SqlPrepare(c, s)
 Spec == Init /\ [][Next]_vars
 NoSpurious == viol = {}
 BeliefSound == \A s \in Conns : bel[s] \subseteq truth[s]
